@@ -1,2 +1,170 @@
 (* C04 — property theorems only: each closed by [exact], each followed by Print Assumptions. *)
 From Dastard Require Import C04.Base C04.Model C04.Spec C04.Proofs.
+
+(* ---------- the reader goroutine is exact on every chunking of an uninterrupted delivery ---------- *)
+(* For every geometry (ncols >= 1, nrows >= 2), every frame content and every way of chopping the byte
+   stream into driver reads (any lengths, also empty ones, shorter than 3 frames, cutting inside words):
+   the real reader loop's model behaves like [exact_run]: a read leaves everything in the card until 3 frames
+   are available (TSmall, nothing released), then ALL whole frames are demultiplexed -- buffer i, sample j
+   is the 16-bit word at stream byte R + j*framesize + 2*i, i.e. word i/2 (error for even i, feedback for odd i)
+   of frame R/framesize + j --, exactly their bytes are released, no drop is flagged, and the partial frame
+   stays in the card for the next read.  Never a geometry mismatch, never a panic. *)
+Theorem reader_frame_exact :
+  forall g, 1 <= ncols g -> 2 <= nrows g ->
+  forall S, frame_bits_wf g S ->
+  forall chunks, S = concat (map fst chunks) ->
+    reader_run g [] chunks = exact_run g S 0 0 chunks.
+Proof. exact reader_frame_exact_proof. Qed.
+Print Assumptions reader_frame_exact.
+
+(* ---------- channel numbering ---------- *)
+Theorem chan_order_bijection :
+  forall g, 1 <= ncols g -> 1 <= nrows g ->
+    zlen (chan2readout g) = nchan g /\
+    (forall r c e, 0 <= r < nrows g -> 0 <= c < ncols g -> 0 <= e < 2 ->
+       znth 0 (chan2readout g) (2 * (c * nrows g + r) + e) = 2 * (r * ncols g + c) + e) /\
+    (forall ch, 0 <= ch < nchan g -> 0 <= znth 0 (chan2readout g) ch < nchan g) /\
+    (forall ch ch', 0 <= ch < nchan g -> 0 <= ch' < nchan g ->
+       znth 0 (chan2readout g) ch = znth 0 (chan2readout g) ch' -> ch = ch') /\
+    (forall i, 0 <= i < nchan g -> exists ch, 0 <= ch < nchan g /\ znth 0 (chan2readout g) ch = i).
+Proof. exact chan_order_bijection_proof. Qed.
+Print Assumptions chan_order_bijection.
+
+(* ---------- feedback: one-sample delay carried across blocks, flag bits cleared, error mixed in, saturation ---------- *)
+(* MixRetardFb called on consecutive blocks (any partition into blocks, the running lastFb carried along)
+   produces, over the concatenation:  out[n] = mix_value scale (fb[n-1] with both flag bits cleared) err[n],
+   out[0] using the value carried in; mix_value s p e = p when s = 0, otherwise the float64 expression
+   float64(int16 e)*s + float64(p) (evaluated with Coq's binary64 primitives, as Go does), clipped to 65535
+   from above and to 0 from below, else rounded by dastard's roundint.  Always within 0..65535. *)
+Theorem fb_retard_mix :
+  forall scale blocks last0,
+    Forall (fun b => zlen (fst b) = zlen (snd b)) blocks ->
+    let fbs := concat (map fst blocks) in
+    let errs := concat (map snd blocks) in
+    mix_blocks scale last0 blocks = exp_fb scale last0 fbs errs /\
+    (forall n, 0 <= n < zlen fbs ->
+       znth 0 (exp_fb scale last0 fbs errs) n =
+       mix_value scale (if n =? 0 then last0 else mask3 (znth 0 fbs (n - 1))) (znth 0 errs n)) /\
+    (forall p e, 0 <= p <= 65535 -> 0 <= mix_value scale p e <= 65535) /\
+    (forall p e, (scale =? 0)%float = true -> mix_value scale p e = p) /\
+    (forall p e, (scale =? 0)%float = false ->
+       let x := (z2f (int16 e) * scale + z2f p)%float in
+       mix_value scale p e = if (65535 <=? x)%float then 65535 else if (x <? 0)%float then 0
+                             else roundint x mod 65536) /\
+    (forall v, mask3 v mod 4 = 0 /\ 0 <= mask3 v <= 65532).
+Proof. exact fb_retard_mix_proof. Qed.
+Print Assumptions fb_retard_mix.
+
+(* ---------- external triggers ---------- *)
+(* On exactly demultiplexed frames (m frames starting at stream byte R, numbered from [first]) the scan yields
+   the rising edges of the per-row flag sequence -- the flag of row r read in column 0 of that row (readout word
+   r*ncols), for every ncols -- each counted (first+j)*nrows + r, with the last flag carried out; and the flag
+   sequence of two consecutive blocks is that of the merged block, so edges across a block boundary are
+   counted exactly once. *)
+Theorem ext_trig_exact :
+  forall g S R m first last,
+    1 <= ncols g -> 1 <= nrows g -> 0 <= m ->
+    ext_scan g (exact_data g S R m) m first last =
+      (last_flag last (row_flags g S R m first), edges last (row_flags g S R m first)) /\
+    (forall m2, 0 <= m2 ->
+       row_flags g S R (m + m2) first =
+       row_flags g S R m first ++ row_flags g S (R + m * fsize g) m2 (first + m)) /\
+    (forall l1 l2, edges last (l1 ++ l2) = edges last l1 ++ edges (last_flag last l1) l2).
+Proof. exact ext_trig_exact_proof. Qed.
+Print Assumptions ext_trig_exact.
+
+(* ---------- frame numbers never go backwards (after the fix), whatever the estimate of a loss (>= 0) ---------- *)
+Theorem frames_monotone :
+  forall est, (forall p c, 0 <= est p c) ->
+  forall g nsamp ops st,
+    mono_from (d_next (s_d st)) (blocks_of (run est true g nsamp st ops)).
+Proof. exact frames_monotone_gen. Qed.
+Print Assumptions frames_monotone.
+
+(* non-vacuity of reader_frame_exact's hypothesis: 8 frames of a 2x3 stream *)
+Example reader_frame_exact_nonvacuous :
+  1 <= ncols wit_g /\ 2 <= nrows wit_g /\ frame_bits_wf wit_g (wit_stream wit_flag2 8).
+Proof. exact example_reader_hyps. Qed.
+
+(* ---------- lost bytes ---------- *)
+(* PARTIAL (what the reader achieves; the full statement [realign_after_gap_statement] is refuted below).
+   Bytes were lost in front of stream byte pos; position and count are multiples of 4 (the word grid survives);
+   the byte at pos lies ph bytes into a frame.  The reader's state is exact with release point R (a frame
+   boundary of the part before the cut), the cut lies in the frame that starts at R, gw = (pos-R)/4 words of that
+   frame were still delivered, the first surviving word lies t0w = ph/4 words into its frame, and
+   gw < t0w, or t0w = 0 and gw > ncols.  Then the first read that makes 3 frames available (whatever was read before
+   and however the rest is chopped) releases exactly the damaged frame (4*q bytes, up to the NEXT frame boundary
+   behind the cut), flags the drop, delivers all but one of the whole frames behind that boundary exactly
+   demultiplexed, keeps the rest in the card -- and from then on behaves exactly again (exact_run) for every later
+   chunking.  Not covered: losses that are not multiples of 4 bytes; losses met deeper inside a read, or with
+   gw >= t0w (see the refutation and design.d/C04.md). *)
+Theorem realign_after_gap_partial :
+  forall g, 1 <= ncols g -> 2 <= nrows g ->
+  forall S pos ph, pos mod 4 = 0 -> ph mod 4 = 0 -> 0 <= ph < fsize g -> gap_bits_wf g S pos ph ->
+  forall R, 0 <= R -> R mod fsize g = 0 -> R <= pos < R + fsize g ->
+    (pos - R) / 4 < ph / 4 \/ (ph / 4 = 0 /\ ncols g < (pos - R) / 4) ->
+  forall S1 pend c stamp rest,
+    S = S1 ++ c ++ concat (map fst rest) ->
+    R <= zlen S1 -> pend = zslice S R (zlen S1 - R) ->
+    3 * fsize g <= zlen S1 + zlen c - R ->
+    let q := if ph / 4 =? 0 then (pos - R) / 4 else (pos - R) / 4 + nwords g - ph / 4 in
+    let L := zlen S1 + zlen c - R in
+    let m := L / fsize g - 1 in
+    reader_run g pend ((c, stamp) :: rest) =
+      {| t_pend := zslice S (R + 4 * q + m * fsize g) (L - 4 * q - m * fsize g);
+         t_rels := [4 * q; m * fsize g];
+         t_out := TBuf {| bm_data := exact_data g S (R + 4 * q) m; bm_stamp := stamp; bm_drop := true |} |}
+      :: exact_run g S (zlen S1 + zlen c) (R + 4 * q + m * fsize g) rest.
+Proof. exact realign_run. Qed.
+Print Assumptions realign_after_gap_partial.
+
+(* the release point after the damaged frame is the next frame boundary behind the cut, as the checker demands *)
+Theorem realign_releases_to_next_boundary :
+  forall g pos ph R, 1 <= ncols g -> 2 <= nrows g ->
+    pos mod 4 = 0 -> ph mod 4 = 0 -> 0 <= ph < fsize g -> 0 <= R -> R mod fsize g = 0 -> R <= pos < R + fsize g ->
+    let q := if ph / 4 =? 0 then (pos - R) / 4 else (pos - R) / 4 + nwords g - ph / 4 in
+    R + 4 * q = next_boundary g pos ph.
+Proof. exact realign_next_boundary. Qed.
+Print Assumptions realign_releases_to_next_boundary.
+
+Example realign_after_gap_partial_nonvacuous :
+  1 <= ncols ex_g /\ 2 <= nrows ex_g /\ 252 mod 4 = 0 /\ 16 mod 4 = 0 /\ 0 <= 16 < fsize ex_g /\
+  gap_bits_wf ex_g ex_S 252 16 /\ 240 mod fsize ex_g = 0 /\ 240 <= 252 < 240 + fsize ex_g /\
+  (252 - 240) / 4 < 16 / 4.
+Proof. exact example_realign_hyps. Qed.
+
+(* The full statement is false of the reader (mirror of the current tree): 2 columns x 3 rows, reads of
+   240 bytes, 42 bytes lost at byte 480 -- the third and fourth read are released whole, nothing is delivered or
+   reported, and the checker rejects that history. *)
+Theorem realign_after_gap_refuted : ~ realign_after_gap_statement wit_sys.
+Proof. exact realign_after_gap_refuted_proof. Qed.
+Print Assumptions realign_after_gap_refuted.
+
+Theorem realign_after_gap_refuted_witness :
+  stream_wf wit_cfg3 (stream_of (wit_ops wit_S3)) = true /\ stamps_increasing (wit_ops wit_S3) = true /\
+  map is_silent_release (wit_sys wit_cfg3 (wit_ops wit_S3)) = [false; false; true; true] /\
+  C04_check wit_cfg3 (combine (wit_ops wit_S3) (wit_sys wit_cfg3 (wit_ops wit_S3))) = false.
+Proof. exact realign_witness. Qed.
+Print Assumptions realign_after_gap_refuted_witness.
+
+(* ---------- the tree before the fixes ---------- *)
+(* ncols=2, nrows=3, flag high from frame 1 row 2 on: row count 6 before the fix, 5 (= 1*3+2) after *)
+Theorem ext_trig_exact_refuted_pre_fix :
+  map b_ext (blocks_of (run wit_est false wit_g 1 (init_state wit_g) wit_ops1)) = [[6]] /\
+  map b_ext (blocks_of (run wit_est true wit_g 1 (init_state wit_g) wit_ops1)) = [[5]].
+Proof. exact ext_trig_refuted_pre_fix_proof. Qed.
+Print Assumptions ext_trig_exact_refuted_pre_fix.
+
+(* 10-frame reads, 40 bytes lost after frame 20, estimate 50 frames: first frames 0 10 70 29 before the fix *)
+Theorem frames_monotone_refuted_pre_fix :
+  map b_first (blocks_of (run wit_est false wit_g 1 (init_state wit_g) (wit_ops wit_S2))) = [0; 10; 70; 29] /\
+  map b_first (blocks_of (run wit_est true wit_g 1 (init_state wit_g) (wit_ops wit_S2))) = [0; 10; 70; 79].
+Proof. exact frames_monotone_refuted_pre_fix_proof. Qed.
+Print Assumptions frames_monotone_refuted_pre_fix.
+
+(* the block that reports the loss starts at frame 70 (row 210): its row counts before / after the fix *)
+Theorem ext_trig_after_drop_refuted_pre_fix :
+  znth [] (map b_ext (blocks_of (run wit_est false wit_g 1 (init_state wit_g) (wit_ops wit_S2)))) 2 = [65; 72; 78; 86] /\
+  znth [] (map b_ext (blocks_of (run wit_est true wit_g 1 (init_state wit_g) (wit_ops wit_S2)))) 2 = [214; 221; 228; 235].
+Proof. exact ext_after_drop_refuted_pre_fix_proof. Qed.
+Print Assumptions ext_trig_after_drop_refuted_pre_fix.
